@@ -387,7 +387,8 @@ mod explore {
         }
         // verdict + evidence
         let mut seen = HashSet::new();
-        let _ = std::fs::create_dir_all("/verif/replays");
+        let home = std::env::var("VERIF_HOME").unwrap_or_else(|_| "/verif".to_string());
+        let _ = std::fs::create_dir_all(format!("{}/replays", home));
         let mut nvio = 0;
         for (clause, case, replay) in &st.violations {
             nvio += 1;
@@ -399,7 +400,7 @@ mod explore {
                 h ^= b as u64;
                 h = h.wrapping_mul(0x100000001b3);
             }
-            let path = format!("/verif/replays/C09-{:016x}.replay", h);
+            let path = format!("{}/replays/C09-{:016x}.replay", home, h);
             let _ = std::fs::write(&path, format!("property=C09\nclause={}\ncase={}\n{}\n", clause, case, replay));
             println!("VIOLATION property=C09 replay={}", path);
             println!("  clause={} case={}", clause, case);
@@ -438,7 +439,7 @@ mod explore {
             wall,
             nvio
         );
-        let evp = std::env::var("VERIF_EVIDENCE_PATH").unwrap_or_else(|_| "/verif/evidence/C09.json".to_string());
+        let evp = std::env::var("VERIF_EVIDENCE_PATH").unwrap_or_else(|_| format!("{}/evidence/C09.json", std::env::var("VERIF_HOME").unwrap_or_else(|_| "/verif".to_string())));
         if std::fs::write(&evp, ev).is_err() {
             eprintln!("MACHINERY: cannot write {}", evp);
             return 2;
